@@ -26,6 +26,9 @@ type RefDealCase struct {
 	Silent int    `json:"silent"` // qual: a participant that is not instantiated (the root of shape "root" is placed at its point); -1: none
 	Order  int    `json:"order"`  // 0: vector first, 1: shares first, 2: interleaved per receiver
 	Seed   int64  `json:"seed"`
+	// prescribed by specs/dkg/RefDealing.tla
+	Outcome       string `json:"outcome"`       // keys | fail
+	IdentityShare int    `json:"identityShare"` // the participant whose public key share is the identity key, or -1
 }
 
 type refPoly struct{ coef []*big.Int }
@@ -311,6 +314,12 @@ func RunRefDeal(c RefDealCase) (res RefDealResult) {
 		return sum
 	}
 	groupIsIdentity := expectedPK(0).Inf
+	if c.Outcome != "" && groupIsIdentity != (c.Outcome == "fail") {
+		panic(fmt.Sprintf("harness: the reference group key contradicts the specification (identity: %v, prescribed outcome %s)", groupIsIdentity, c.Outcome))
+	}
+	if c.Outcome != "" && c.IdentityShare >= 0 && !expectedPK(int64(c.IdentityShare+1)).Inf {
+		panic("harness: the specification prescribes an identity public key share that the reference arithmetic does not confirm")
+	}
 	id := ref.G1Inf.Compress()
 	h := crypto.NewExpandMsgXOFKMAC128("verif-refdeal")
 	for _, m := range real {
